@@ -140,7 +140,9 @@ def check_locale(ctx, c):
     path = PathTap.accepted()
     if r != exp:
         ctx.violation(dict(c, string=s, locale_order=lo), r, exp, "locale-order",
-                      {"locale": loc, "locale_order": lo, "pl": pl, "sep": sep, "path": path})
+                      {"locale": loc, "locale_order": lo, "pl": pl, "sep": sep, "path": path,
+                       "year_last": o.endswith("Y"), "suffix": False,
+                       "year_reads_as_offset": bool(sep == "-" and o.endswith("Y") and reads_as_offset(s))})
         return
     if path != "absolute-time":
         ctx.count("off_path:%s" % path)
